@@ -27,7 +27,8 @@ IDC = set("abcdefghijklmnopqrstuvwxyzABCDEFGHIJKLMNOPQRSTUVWXYZ0123456789_-")
 
 def patterns_for(dets, rng):
     """patterns with leading / trailing / inner stars derived from the names, plus fixed ones"""
-    out = ["them", "*", "_*", "zz*", "*_*", "**", "them*", "*1", "s*_*"]
+    fixed = ["them", "*", "_*", "zz*", "*_*", "**", "them*", "*1", "s*_*"]
+    out = ["them", "*", rng.choice(fixed)]
     for n in dets:
         core = "".join(c for c in n if c in PATC and c != "*")
         if not core:
@@ -91,7 +92,7 @@ def fill(shape, dets, rng, pats):
         referable = [n for n in dets if n and set(n) <= IDC and n not in RESERVED]
         if r < 0.62 and referable:
             return ("id", rng.choice(referable))
-        if r < 0.66:
+        if r < 0.64:
             return ("id", rng.choice([n for n in REFERABLE if n not in dets]))   # undefined name
         return ("sel", rng.choice(QUANTS), rng.choice(pats))
     if shape[0] == "not":
